@@ -49,6 +49,24 @@ def run(ctx):
         wt[v[1]] = kind
     R.ob(wt == {0: "raw", 1: "nada", 2: "zstd"}, "CODEC", e.where(), "CODEC|inscription|writer-table", "encoder prefix table is %s; expected {0: raw, 1: nada, 2: zstd}" % wt,
          sample={"rule": "CODEC prefix table", "side": "writer", "table": {str(k): v for k, v in wt.items()}})
+    # every text the encoder hands out is base64(prefix ++ payload): each Ok return carries the result of the base64 engine, and
+    # that call is dominated by a prefix insert (an extra success path - a shortcut for some class of payloads - produces a
+    # text the decoder has no arm for)
+    from tablerules import _return_values
+    b64 = [c for c in e.calls() if (c.method or "") == "encode" and "Engine" in (c.trait or c.target_path or "") and not e.is_cleanup(c.bb)]
+    R.ob(len(b64) >= 1, "CODEC", e.where(), "CODEC|inscription|writer-base64", "the encoder never calls the base64 engine")
+    rvals = _return_values(e)
+    R.floor("encoder_ok_returns", len(rvals), 1)
+    for rv in rvals:
+        R.ob(mentions(rv, "Engine::encode") or any(mentions(rv, (c.target_path or "~").split("::")[-1]) and mentions(rv, "Engine") for c in b64),
+             "CODEC", e.where(), "CODEC|inscription|writer-every-return-is-base64",
+             "the encoder has a success path whose text is `%s`, not base64(prefix ++ payload): the decoder has no arm for it, so that payload "
+             "does not decode to itself and differs from the same bytes sent through the hex field" % show(rv)[:80],
+             sample={"rule": "CODEC writer", "return": show(rv)[:60]})
+    for c in b64:
+        R.ob(bool(ins) and c.bb not in e.reachable(0, avoid={i.bb for i in ins}),
+             "CODEC", c.where(), "CODEC|inscription|writer-prefix-before-base64", "the base64 text can be produced without a prefix byte having been inserted",
+             sample={"rule": "CODEC writer", "row": "prefix insert on every path to the base64 call"})
     # ---- reader table: switch on the first byte
     rt = {}
     sw = None
